@@ -22,7 +22,7 @@ class P(EngProp):
     rule = ("per case one rewriting stage (or a chain of two) after an always-true selector over 2-8 records with random attributes: label_format renames (dst absent/present, "
             "src absent/present, self-rename, chains), label_format templates, line_format templates (text, .label, __line__, __timestamp__, ToUpper/ToLower, a call failing on "
             "some records only, a call failing always), the same line_format template in two stages of one query and one query evaluated twice in one process, drop/keep with names and =,!=,=~,!~ value matchers incl. name+matcher on one label, two or three matchers on the same label and values containing one another, "
-            "decolorize on lines with CSI sequences introduced by ESC [ or by the single 8-bit introducer U+009B. For every entry the generator computes the expected line and the expected full label set from the LogQL reading of the stage; "
+            "drop / keep value matchers on labels that `| json` extracted from numbers and booleans, decolorize on lines with CSI sequences introduced by ESC [ or by the single 8-bit introducer U+009B. For every entry the generator computes the expected line and the expected full label set from the LogQL reading of the stage; "
             "the check demands them on the observed result, demands that no entry is dropped (count = N), and compares with the model.")
 
     def gen(self, rng, tier):
@@ -30,7 +30,7 @@ class P(EngProp):
         g = EGen(rng)
         cases = []
         for i in range(n):
-            kind = ["rename", "mixed", "tmpl", "linefmt", "linefmt", "drop", "keep", "decolor", "chain", "rename", "mixed", "drop", "dupfmt", "twice"][i % 14]
+            kind = ["rename", "mixed", "tmpl", "linefmt", "linefmt", "drop", "keep", "decolor", "chain", "rename", "mixed", "drop", "dupfmt", "twice", "typed"][i % 15]
             cases.append(self.one(rng, g, kind))
         return cases
 
@@ -52,6 +52,20 @@ class P(EngProp):
                     deco.append((B(col), B(base)))
                 else:
                     lines.append(base); plain.append(base)
+        jsonl = []
+        jdocs = None
+        if kind == "typed":
+            # labels extracted by `| json` from numbers and booleans: a value matcher of drop / keep sees their text
+            jdocs = []
+            lines = []
+            for _ in range(nrec):
+                pairs = [("status", rng.choice([("num", "500", "500"), ("num", "404", "404"), ("num", "200", "200"), "500"])),
+                         ("ok", rng.choice([True, False, "true"])), ("app", rng.choice(["web", "api"]))]
+                if rng.random() < 0.5:
+                    pairs.append(("ratio", rng.choice([("num", "0.5", "0.5"), ("num", "1.0", "1")])))
+                rng.shuffle(pairs)
+                jl = egen.JLine(rng, pairs)
+                jdocs.append(jl); lines.append(jl.text); jsonl.append((B(jl.text), jl.coq))
         recs = g.records(lines, with_attrs=False)
         names = ["app", "level", "n", "env", "t", "status"]
         for r in recs:
@@ -158,7 +172,35 @@ class P(EngProp):
             apply(f)
 
         twice = False
-        if kind in ("dupfmt", "twice"):
+        if kind == "typed":
+            for r in recs:
+                r["attrs"] = []
+            exp = [(r, r["line"], base_labels(r)) for r in recs]
+            pipe.append(g.st_json())
+            jmap = {r["ts"]: jl for r, jl in zip(recs, jdocs)}
+
+            def fj(r, l, d):
+                d = dict(d)
+                for k, x in jmap[r["ts"]].complete:
+                    if x.render is not None:
+                        d[key_to_label(B(k))] = x.render
+                return l, d
+            apply(fj)
+            which = rng.choice(["keep", "keep", "drop"])
+            nm = rng.sample(["app", "msg"], rng.randint(0, 1))
+            ms = [{"l": l, "op": op, "v": v, "k": "m", "pair": "(%s,%s)" % (cbytes(B(l)), egen.sm_coq(op, v)), "sm": egen.sm_coq(op, v)}
+                  for l, op, v in rng.sample([("status", "=", "500"), ("status", "!=", "500"), ("ok", "=", "true"), ("ok", "!=", "false"), ("status", "=", "404"), ("ratio", "=", "0.5"), ("ratio", "=", "1")], rng.randint(1, 2))]
+            pipe.append(g.st_dropkeep(which, nm, ms))
+
+            def selt(k, v):
+                if k in [B(x) for x in nm]:
+                    return True
+                return any(B(m["l"]) == k and ((v == B(m["v"])) == (m["op"] == "=")) for m in ms)
+
+            def fk(r, l, d):
+                return l, {k: v for k, v in d.items() if (selt(k, v) if which == "keep" else not selt(k, v))}
+            apply(fk)
+        elif kind in ("dupfmt", "twice"):
             # the SAME template text in two stages of one query (each stage has its own line / timestamp), or one query evaluated
             # twice in one process: a template is bound to the stage instance and the evaluation it was compiled for
             t = rng.choice(["<{{ __line__ }}>", "{{ __timestamp__ | unixEpochNanos }}:{{ __line__ }}", "{{ .app }}/{{ __line__ }}"])
@@ -201,7 +243,7 @@ class P(EngProp):
             for r, l, d in exp:
                 rels.append("RelLine %d %s %s" % (ev, cZ(r["ts"]), cbytes(l)))
                 rels.append("RelLabels %d %s %s" % (ev, cZ(r["ts"]), labels_coq(d)))
-        return {"kind": kind, "recs": [g.rec_json(r) for r in recs], "oracle": oracles_coq(decolor=dedup(deco)),
+        return {"kind": kind, "recs": [g.rec_json(r) for r in recs], "oracle": oracles_coq(jsonl=dedup(jsonl), decolor=dedup(deco)),
                 "evals": [{"q": b64e(q), "qcoq": g.query_coq(sel, pipe), "label": [], "line": [], "limit": 0}] * nev, "rels": rels,
                 "stages": [s["k"] for s in pipe], "note": "expected line and full label set of every entry computed by the generator"}
 
